@@ -45,6 +45,27 @@ theorem C13_tie_reset :
     sampleTables.all (fun (ms, fl) => match genReset ms fl with
       | .ok r => r == reset ms fl | .error _ => false) = true := by decide +kernel
 
+/-- **removeContents removes every entry** (regenerated code, kernel-evaluated): whatever the names look
+like — hidden, with spaces, a name that is a dangling link or a FIFO is just a name here —, however many
+there are (1100 entries: more than any bounded batch a directory read might be given), and whichever
+removals fail, every name the directory holds is handed to `RemoveAll`, and the error is reported iff a
+removal failed or the directory could not be opened. (`RemoveAll` itself — `C13_removeContents_empties` —
+removes whatever the name designates without following it.) -/
+theorem C13_gen_removeContents_every_entry :
+    removesEverything "/w" [] = true ∧
+    removesEverything "/w" [".hidden", "..x", "a b", "dangling", "fifo", "-", "loopa", ".", "sub"] = true ∧
+    removesEverything "/tmp" ["a", "b", "c"] ["/tmp/b"] = true ∧
+    (genRemoveContents "/w" ["a"] [] true).toOption = some (true, []) := by
+  refine ⟨?_, ?_, ?_, ?_⟩ <;> decide +kernel
+
+/-- the same for a directory with 300 entries, and the directory is read with ONE call that asks for
+everything (a count ≤ 0: os.File returns all names then) — not with a bounded batch that would leave the
+rest of a large directory behind -/
+theorem C13_gen_removeContents_many_entries :
+    removesEverything "/w" ((List.range 300).map (fun k => String.ofList (Nat.toDigits 10 k))) = true ∧
+    (genReadCounts "/w" ["a", "b"]).toOption = some [-1] := by
+  constructor <;> decide +kernel
+
 /-- **sealed executable**: DupToMemfd creates, copies, seals with roSeal, rewinds — in that order —
 returns a file only if every step succeeded and closes the file on every failing path. -/
 theorem C13_dup_sequence :
